@@ -82,6 +82,16 @@ def operator_built(ctx):
         lambda: make_required(schema.dict({optional("a"): schema.int, optional("b"): schema.str}), ["a"]),
         lambda: make_required(schema.dict({optional("a"): schema.int}) + schema.dict({optional("b"): schema.any})),
     ]
+    import datetime as _d
+    import uuid as _u
+    tzs = [_d.timezone.utc, _d.timezone(_d.timedelta(hours=-5)), _d.timezone(_d.timedelta(hours=5, minutes=30)), _d.timezone(_d.timedelta(hours=-9, minutes=-30)),
+           _d.timezone(_d.timedelta(seconds=-1)), _d.timezone(_d.timedelta(hours=14)), _d.timezone(_d.timedelta(hours=-12), "X")]
+    for tz in tzs:
+        builders.append(lambda tz=tz: schema.datetime(_d.datetime(2024, 2, 29, 23, 59, 59, 999999, tzinfo=tz)))
+        builders.append(lambda tz=tz: schema.dict({"at": schema.datetime(_d.datetime(1999, 12, 31, 0, 0, tzinfo=tz)), "d": schema.date(_d.date(2024, 2, 29))}))
+    builders += [lambda: schema.datetime(_d.datetime.min), lambda: schema.datetime(_d.datetime.max), lambda: schema.date(_d.date.min), lambda: schema.date(_d.date.max),
+                 lambda: schema.datetime(_d.datetime(2024, 1, 1, 0, 0, fold=1)), lambda: schema.uuid4(_u.UUID("12345678-1234-4234-8234-123456789abc")),
+                 lambda: schema.date(_d.datetime(2024, 2, 29, 12, 0))]
     for mk in builders:
         try:
             u = mk()
